@@ -465,7 +465,7 @@ std::vector<K> gen_keys(TapeReader &t, const GenOpts &o, KeyMeta &meta) {
             const size_t cap = (size_t(1) << 24) - 4096;
             size_t surplus = 0;
             for (auto &c: cnt)
-                if (c > cap) surplus += c - cap, c = cap;
+                if (c > cap) surplus += c - cap, c = cap, meta.excluded_known = true; // KF-4 (KNOWN_FINDINGS.txt)
             for (size_t i = 0; surplus > 0 && i < d; ++i) {
                 size_t room = cap - cnt[i], add = std::min(room, surplus);
                 cnt[i] += add;
